@@ -781,3 +781,168 @@ Module REFL.
   Definition holds (p : pc) : bool :=
     match p with UBody | UUnlock _ | CBody | CCb | CUnlock _ => true | _ => false end.
 End REFL.
+
+(* ============================================================== managedresource.go
+   mr.lock is a readers/writer lock.  The user's `equal` callback runs under the write lock and may
+   block (gate); `generate` runs under the write lock.  Resources are numbered by generate: the
+   k-th call returns k (0 = nil); equal compares numbers (equal(nil, r) = false). *)
+Module MR.
+  (* script op: o_code 0 = Take; otherwise MarkBroken(o_a) with o_b = gate inside the equal callback *)
+  Inductive pc :=
+  | Idle
+  | TRLock              (* Take: mr.lock.RLock()                                    l.33 *)
+  | TRead               (* resource := mr.resource                                  l.34 *)
+  | TRUnlock (r : nat)  (* mr.lock.RUnlock(); if resource != nil { return resource } l.35-39 *)
+  | TWLock              (* mr.lock.Lock()                                           l.41 *)
+  | TGen                (* if mr.resource == nil { mr.resource = mr.generate() }    l.44-46 *)
+  | TWUnlock (r : nat)  (* deferred Unlock; return mr.resource                      l.42,47 *)
+  | MLock               (* MarkBroken: mr.lock.Lock()                               l.23 *)
+  | MEq                 (* mr.equal(mr.resource, resource) running (write lock held) l.26 *)
+  | MSet (eq : bool)    (* if equal { mr.resource = nil }                           l.26-28 *)
+  | MUnlock.            (* deferred Unlock                                          l.24 *)
+
+  Record tstate := mkt { t_pc : pc; t_arg : nat; t_gate : nat; t_todo : list op; t_res : list (nat * nat) }.
+  Record state := mk { cur : nat; ngen : nat; readers : nat; writer : option nat;
+                       open : list nat; ts : nat -> tstate; trace : list ev }.
+  Definition init (scripts : nat -> list op) : state :=
+    mk 0 0 0 None [] (fun t => mkt Idle 0 0 (scripts t) []) [].
+
+  Definition step (l : lbl) (s : state) : option state :=
+    match l with
+    | Open g => Some (mk (cur s) (ngen s) (readers s) (writer s) (g :: open s) (ts s) (trace s))
+    | Adv _ => None
+    | Thr t =>
+        let x := ts s t in
+        let setp (rd : nat) (wr : option nat) (p : pc) :=
+          Some (mk (cur s) (ngen s) rd wr (open s) (upd (ts s) t (mkt p (t_arg x) (t_gate x) (t_todo x) (t_res x))) (trace s)) in
+        let ret (wr : option nat) (code r : nat) :=
+          Some (mk (cur s) (ngen s) (readers s) wr (open s)
+                   (upd (ts s) t (mkt Idle (t_arg x) (t_gate x) (t_todo x) ((r, 0) :: t_res x)))
+                   (mkev t KRet code r 0 0 :: trace s)) in
+        match t_pc x with
+        | Idle =>
+            match t_todo x with
+            | [] => None
+            | o :: rest =>
+                Some (mk (cur s) (ngen s) (readers s) (writer s) (open s)
+                         (upd (ts s) t (mkt (match o_code o with 0 => TRLock | _ => MLock end) (o_a o) (o_b o) rest (t_res x)))
+                         (mkev t KInv (o_code o) (o_a o) (o_b o) 0 :: trace s))
+            end
+        | TRLock => match writer s with None => setp (S (readers s)) None TRead | Some _ => None end
+        | TRead => setp (readers s) (writer s) (TRUnlock (cur s))
+        | TRUnlock r =>
+            match r with
+            | 0 => setp (readers s - 1) (writer s) TWLock
+            | _ => Some (mk (cur s) (ngen s) (readers s - 1) (writer s) (open s)
+                            (upd (ts s) t (mkt Idle (t_arg x) (t_gate x) (t_todo x) ((r, 0) :: t_res x)))
+                            (mkev t KRet 0 r 0 0 :: trace s))
+            end
+        | TWLock => match writer s, readers s with None, 0 => setp 0 (Some t) TGen | _, _ => None end
+        | TGen =>
+            match cur s with
+            | 0 => Some (mk (S (ngen s)) (S (ngen s)) (readers s) (writer s) (open s)
+                            (upd (ts s) t (mkt (TWUnlock (S (ngen s))) (t_arg x) (t_gate x) (t_todo x) (t_res x)))
+                            (mkev t KBegin 2 (S (ngen s)) 0 0 :: trace s))
+            | r => setp (readers s) (writer s) (TWUnlock r)
+            end
+        | TWUnlock r => ret None 0 r
+        | MLock => match writer s, readers s with None, 0 => setp 0 (Some t) MEq | _, _ => None end
+        | MEq =>
+            if gate_open (open s) (t_gate x)
+            then setp (readers s) (writer s) (MSet (negb (Nat.eqb (cur s) 0) && Nat.eqb (cur s) (t_arg x)))
+            else None
+        | MSet eq =>
+            Some (mk (if eq then 0 else cur s) (ngen s) (readers s) (writer s) (open s)
+                     (upd (ts s) t (mkt MUnlock (t_arg x) (t_gate x) (t_todo x) (t_res x))) (trace s))
+        | MUnlock => ret None 1 0
+        end
+    end.
+
+  Definition busy (s : state) (t : nat) : bool := match t_pc (ts s t) with Idle => false | _ => true end.
+  Definition wholds (p : pc) : bool :=
+    match p with TGen | TWUnlock _ | MEq | MSet _ | MUnlock => true | _ => false end.
+
+  (* the sequential specification: state = (current resource, number of generate calls) *)
+  Definition sstep (s : nat * nat) (_ : nat) (o : op) : option ((nat * nat) * nat) :=
+    let (c, n) := s in
+    match o_code o with
+    | 0 => match c with 0 => Some ((S n, S n), S n) | r => Some ((r, n), r) end
+    | _ => if negb (Nat.eqb c 0) && Nat.eqb c (o_a o) then Some ((0, n), 0) else Some ((c, n), 0)
+    end.
+End MR.
+
+(* ============================================================== immutableresource.go
+   Get: read under RLock; if nil: maybeRefresh (timex.Now, lastTime.Load, compare with the refresh
+   interval, lastTime.Set, fetch, store under Lock); read again under RLock.  Each lock-protected
+   region is one step; Load and Set of lastTime are separate steps (they are not atomic together). *)
+Module IR.
+  (* script op: Get with o_a = the value the user fetch returns if this Get calls it (0 = nil; it may be
+     non-nil although the fetch fails), o_b = gate inside fetch, o_c <> 0: fetch returns an error *)
+  Inductive pc :=
+  | Idle
+  | IRead1                  (* RLock; resource := ir.resource; RUnlock                    l.38-43 *)
+  | ILoad                   (* now := timex.Now(); lastTime := ir.lastTime.Load()         l.64-65 *)
+  | IDecide (l n : nat)     (* if lastTime == 0 || lastTime+interval < now { Set(now) ... l.66-67 *)
+  | IFetchB                 (* fetch starts                                               l.47 *)
+  | IFetchE                 (* fetch returns                                              l.47 *)
+  | IStore                  (* Lock; if err != nil { ir.err = err } else { ir.resource, ir.err = res, nil }; Unlock  l.48-54 *)
+  | IRead2.                 (* RLock; resource, err := ir.resource, ir.err; RUnlock; return l.57-60 *)
+
+  Record tstate := mkt { t_pc : pc; t_val : nat; t_gate : nat; t_fail : nat; t_todo : list op; t_res : list (nat * nat) }.
+  Record state := mk { res : nat; err : nat; last : nat; now : nat; open : list nat; ts : nat -> tstate; trace : list ev;
+                       goods : list nat (* ghost: values returned by successful fetches *) }.
+  Definition init (scripts : nat -> list op) : state :=
+    mk 0 0 0 1 [] (fun t => mkt Idle 0 0 0 (scripts t) []) [] [].
+
+  Definition step (interval : nat) (l : lbl) (s : state) : option state :=
+    match l with
+    | Open g => Some (mk (res s) (err s) (last s) (now s) (g :: open s) (ts s) (trace s) (goods s))
+    | Adv d => Some (mk (res s) (err s) (last s) (now s + d) (open s) (ts s) (trace s) (goods s))
+    | Thr t =>
+        let x := ts s t in
+        let setp (p : pc) :=
+          Some (mk (res s) (err s) (last s) (now s) (open s)
+                   (upd (ts s) t (mkt p (t_val x) (t_gate x) (t_fail x) (t_todo x) (t_res x))) (trace s) (goods s)) in
+        let ret (r e : nat) :=
+          Some (mk (res s) (err s) (last s) (now s) (open s)
+                   (upd (ts s) t (mkt Idle (t_val x) (t_gate x) (t_fail x) (t_todo x) ((r, e) :: t_res x)))
+                   (mkev t KRet 0 r e 0 :: trace s) (goods s)) in
+        match t_pc x with
+        | Idle =>
+            match t_todo x with
+            | [] => None
+            | o :: rest =>
+                Some (mk (res s) (err s) (last s) (now s) (open s)
+                         (upd (ts s) t (mkt IRead1 (o_a o) (o_b o) (o_c o) rest (t_res x)))
+                         (mkev t KInv 0 (o_a o) (now s) (o_c o) :: trace s) (goods s))
+            end
+        | IRead1 => match res s with 0 => setp ILoad | r => ret r 0 end
+        | ILoad => setp (IDecide (last s) (now s))
+        | IDecide l n =>
+            if Nat.eqb l 0 || Nat.ltb (l + interval) n
+            then Some (mk (res s) (err s) n (now s) (open s)
+                          (upd (ts s) t (mkt IFetchB (t_val x) (t_gate x) (t_fail x) (t_todo x) (t_res x))) (trace s) (goods s))
+            else setp IRead2
+        | IFetchB =>
+            Some (mk (res s) (err s) (last s) (now s) (open s)
+                     (upd (ts s) t (mkt IFetchE (t_val x) (t_gate x) (t_fail x) (t_todo x) (t_res x)))
+                     (mkev t KBegin 0 0 (now s) 0 :: trace s) (goods s))
+        | IFetchE =>
+            if gate_open (open s) (t_gate x) then
+              Some (mk (res s) (err s) (last s) (now s) (open s)
+                       (upd (ts s) t (mkt IStore (t_val x) (t_gate x) (t_fail x) (t_todo x) (t_res x)))
+                       (mkev t KEnd 0 (t_val x) (now s) (if Nat.eqb (t_fail x) 0 then 0 else 1) :: trace s)
+                       (if Nat.eqb (t_fail x) 0 then t_val x :: goods s else goods s))
+            else None
+        | IStore =>
+            if Nat.eqb (t_fail x) 0
+            then Some (mk (t_val x) 0 (last s) (now s) (open s)
+                          (upd (ts s) t (mkt IRead2 (t_val x) (t_gate x) (t_fail x) (t_todo x) (t_res x))) (trace s) (goods s))
+            else Some (mk (res s) 1 (last s) (now s) (open s)
+                          (upd (ts s) t (mkt IRead2 (t_val x) (t_gate x) (t_fail x) (t_todo x) (t_res x))) (trace s) (goods s))
+        | IRead2 => ret (res s) (err s)
+        end
+    end.
+
+  Definition busy (s : state) (t : nat) : bool := match t_pc (ts s t) with Idle => false | _ => true end.
+End IR.
